@@ -30,3 +30,9 @@ register(Unit(P, "LEMMA/SER", _L.h_ser, functions=[], replay=cp._replay_mm_commi
 
 from contracts import helpers as _HLP  # noqa: E402
 _HLP.register_under("C01", ["HELPER/_deep_copy_metadata", "HELPER/validate_data_files", "HELPER/validate_file_exists", "HELPER/metadata-file-io", "NAME/_new_metadata_filename"])
+
+from contracts import C20_storage as _c20  # noqa: E402
+_c20.register_cas_map_under(P)
+
+# "a commit that raised is not reflected": after the pointer flip nothing may raise (marker cleanup included)
+register(Unit(P, "POST-CP/_finish_committed", cp.h_finish_committed, functions=[f"{cp.TX}:Transaction._finish_committed"], replay=cp._replay_tx))
